@@ -22,7 +22,7 @@ from bcsim import engine, node, specs
 PROP = "C12"
 LEVEL = "exploration"
 TIERS = {
-    "quick": dict(runs=320, wall=900, hashseeds=[0], node_seeds=[0, 1, 77, 4242], fault_p=0.06),
+    "quick": dict(runs=400, wall=900, hashseeds=[0], node_seeds=[0, 1, 77, 4242], fault_p=0.06),
     "thorough": dict(runs=12000, wall=6 * 3600, hashseeds=[0], node_seeds=[0, 1, 2, 3, 5, 7, 11, 13, 77, 101, 1234, 4242, 9999, 31337, 65537, 99991], fault_p=0.06),
 }
 NONCODING = ["ncRNA", "tRNA", "rRNA", "misc_RNA", "tmRNA", "lncRNA", "snoRNA"]
